@@ -184,6 +184,13 @@ def get(prog):
     r.list_probe = {k: sorted(set((o[1], o[2]) for o in ai.memo[k0])) for k, k0 in list_keys.items()}     # (consumed, error)
     r.block_probe = {k: sorted(set((o[0][0], o[1], o[2]) for o in ai.memo[k0])) for k, k0 in blk_keys.items()}     # (next-token set after the statement, consumed, error)
     r.prefix_probe = {k: (sorted(set((o[1], o[2]) for o in ai.memo[k0])) if k0 is not None else None) for k, k0 in pref_keys.items()}
+    tp = defaultdict(set)
+    for (fn_, mask_), cls_ in ai.token_parent.items():
+        if mask_ > 0:
+            for kb in grammar_ai.bits(mask_):
+                tp[(fn_, ai.kname[kb])] |= cls_
+    r.token_parent = {k: sorted(v) for k, v in tp.items()}
+    r.edge_first = dict(ai.edge_first)
     r.cm_kinds = dict(ai.cm_kinds)
     r.allkinds = {d: n for n, d in prog.enum_variants("oq3_parser::syntax_kind::syntax_kind_enum::SyntaxKind")}
     r.callargs = {k: sorted(v, key=repr) for k, v in ai.callargs.items()}
